@@ -433,6 +433,9 @@ class C12(Prop):
                                        # environment (expanded when read)
                                        {'LOGS': '$HOME/logs'},
                                        {'LOGS': '$HOME/logs', 'A': '$PATH'},
+                                       # set, to the empty string
+                                       {'A': '1', 'DEBUG': ''},
+                                       {'DEBUG': ''},
                                        {'PATH': '/opt/one:/usr/bin'},
                                        {'PATH': '/opt/two:/usr/bin'},
                                        {'HOME': '/h1', 'A': '1'}])
